@@ -294,12 +294,18 @@ pub fn run<T: HashAlgorithm>(cs: &CrashScript, scratch: &Path, out: &mut dyn Wri
         let target = is_sync_op(&a) && (enumerate || cs.record_all);
         let fault_here = cs.fault.as_ref().map_or(false, |f| f.step == idx) && is_sync_op(&a);
         let mut pre = None;
+        let mut pre_live: Option<(Vec<u32>, Vec<u32>)> = None;
         if target || fault_here {
             if a == "Reopen" {
                 // the image before a reopen is the closed directory
                 pre = Some(Shadow::from_dir(&dir)?);
             } else {
                 pre = Some(Shadow::from_dir(&dir)?);
+                if target {
+                    // the pages the committed state REFERENCES, by the independent decoder (the store's own free
+                    // list is not trusted to say which pages may be written)
+                    pre_live = crate::decode::decode_dir(&dir).ok().map(|d| (d.ln.live.clone(), d.bbn.live.clone()));
+                }
             }
             rec::set_dir(&dir);
             rec::start(if fault_here {
@@ -326,7 +332,11 @@ pub fn run<T: HashAlgorithm>(cs: &CrashScript, scratch: &Path, out: &mut dyn Wri
         if target && !events.is_empty() {
             // raw I/O events for SyncTrace
             let failable = events.iter().filter(|e| e.phase == "begin" && matches!(e.kind.as_str(), "write"|"append"|"setlen"|"fsync"|"dirsync"|"unlink"|"create"|"submit")).count();
-            let pre_sum = pre_summary(pre.as_ref().unwrap());
+            let mut pre_sum = pre_summary(pre.as_ref().unwrap());
+            if let Some((ln, bbn)) = &pre_live {
+                pre_sum["ln"]["live"] = json!(ln);
+                pre_sum["bbn"]["live"] = json!(bbn);
+            }
             writeln!(evout, "{}", json!({"ev":"op","run":sc.run,"i":idx,"op":step,"res":ev.get("res"),"n":events.len(),"failable":failable,
                                          "pre": pre_sum}))?;
             for e in &events {
